@@ -402,6 +402,20 @@ class World:
 
         return aa.Region2D(region=tuple(s["region"]))
 
+    def _b_coord_triangles(self, s):
+        from autoarray.structures.triangles.coordinate_array import CoordinateArrayTriangles
+
+        coords = self.own(s["id"], "coordinates", np.array(s["coordinates"], dtype=int).reshape(-1, 2))
+        return CoordinateArrayTriangles(coordinates=coords, side_length=float(s.get("side_length", 1.0)), x_offset=float(s.get("x_offset", 0.0)),
+                                        y_offset=float(s.get("y_offset", 0.0)), flipped=bool(s.get("flipped", False)))
+
+    def _b_array_triangles(self, s):
+        from autoarray.structures.triangles.array import ArrayTriangles
+
+        idx = self.own(s["id"], "indices", np.array(s["indices"], dtype=int).reshape(-1, 3))
+        vert = self.own(s["id"], "vertices", floats(s["vertices"], (-1, 2)))
+        return ArrayTriangles(indices=idx, vertices=vert)
+
     def _b_derive(self, s):
         from sim.worlds import catalog
 
